@@ -284,6 +284,11 @@ func checkCharEntropy(p *core.Program, r *core.Report) {
 				reqNonEmpty = true
 			}
 		}
+		// the same test spelled as a search: a sweep over the required sets that
+		// leaves for the counting path at the first non-empty one, the simple term after it
+		if !reqEmpty && !reqNonEmpty {
+			reqEmpty, reqNonEmpty = anyRequiredSetNonEmpty(ent, al, ret.Block())
+		}
 		if isEntropySimpleCall(p, c) {
 			nSimple++
 			x, isLen := core.LenOf(c.Call.Args[1])
@@ -304,4 +309,98 @@ func checkCharEntropy(p *core.Program, r *core.Report) {
 	}
 	r.Check(nSimple == 1 && nReq == 1, "R6.4", name, "exactly the two documented entropy computations", p.Pos(ent.Pos()), fmt.Sprintf("%d simple, %d counting", nSimple, nReq))
 	_ = types.Typ
+}
+
+// anyRequiredSetNonEmpty recognises
+//
+//	for _, e := range copy.requiredSets { if e.s.Cardinality() != 0 { <at: counting path> } }
+//	<at: simple path>
+//
+// and reports whether block `at` is known to run with all required sets empty
+// (after the complete sweep) or with a non-empty one (inside the test).
+func anyRequiredSetNonEmpty(fn *ssa.Function, recv *ssa.Alloc, at *ssa.BasicBlock) (allEmpty, someNonEmpty bool) {
+	for _, l := range core.Loops(fn) {
+		ri, ok := core.AsRange(l)
+		if !ok || ri.Kind != "slice" {
+			continue
+		}
+		if ref, okP := core.LoadPath(ri.X); !okP || ref.Path != ".requiredSets" || ref.Root != ssa.Value(recv) {
+			continue
+		}
+		// the blocks leaving the loop other than through the header's exit are
+		// guarded by Cardinality(element.s) != 0
+		nonEmptyGuard := func(b *ssa.BasicBlock) bool {
+			for _, gd := range core.Guards(b) {
+				if !l.Blocks[gd.If.Block()] {
+					continue
+				}
+				rel, ok := core.AsRel(gd)
+				if !ok {
+					continue
+				}
+				sc, isCall := rel.X.(*ssa.Call)
+				k, isC := core.ConstInt(rel.Y)
+				if !isCall || !isC || k != 0 || !(rel.Op == token.NEQ || rel.Op == token.GTR) {
+					continue
+				}
+				if !sc.Common().IsInvoke() || sc.Common().Method.Name() != "Cardinality" {
+					continue
+				}
+				if elementOfRange(sc.Common().Value, ri, 0) {
+					return true
+				}
+			}
+			return false
+		}
+		okExits := true
+		for b := range l.Blocks {
+			for _, sb := range b.Succs {
+				if l.Blocks[sb] || b == l.Header {
+					continue
+				}
+				if !nonEmptyGuard(sb) {
+					okExits = false
+				}
+			}
+		}
+		if !okExits {
+			continue
+		}
+		if nonEmptyGuard(at) {
+			return false, true
+		}
+		if !l.Blocks[at] && ri.Exit != nil && ri.Exit.Dominates(at) && len(ri.Exit.Preds) == 1 {
+			return true, false
+		}
+	}
+	return false, false
+}
+
+// elementOfRange: v is (a field of) the element of the ranged slice at the range index.
+func elementOfRange(v ssa.Value, ri *core.RangeInfo, d int) bool {
+	if d > 6 || v == nil {
+		return false
+	}
+	switch x := v.(type) {
+	case *ssa.Field:
+		return elementOfRange(x.X, ri, d+1)
+	case *ssa.FieldAddr:
+		return elementOfRange(x.X, ri, d+1)
+	case *ssa.UnOp:
+		return x.Op == token.MUL && elementOfRange(x.X, ri, d+1)
+	case *ssa.IndexAddr:
+		return x.Index == ri.Index && sameSliceLoad(x.X, ri.X)
+	case *ssa.Alloc:
+		// a local copy of the element: stored once from it
+		n := 0
+		okv := false
+		for _, ref := range core.Referrers(x) {
+			if st, ok := ref.(*ssa.Store); ok && st.Addr == ssa.Value(x) {
+				n++
+				okv = elementOfRange(st.Val, ri, d+1)
+			}
+		}
+		return n == 1 && okv
+	}
+	return false
 }
